@@ -157,6 +157,11 @@ def quick_family() -> List[Skeleton]:
         add(f"operand {op} times", [E(nm.m(), [E(op, [E(nm.o()), E(nm.o())], 2)])], "opnd", "ops", "times")
         add(f"operand {op} nested", [E(nm.m(), [E(op, [E("$or", [E(nm.o()), E(nm.o())]), E(nm.o())])])], "opnd",
             "ops", "nest")
+    for op in OPS:
+        add(f"operand {op} with the integer 0 as a child", [E(nm.m(), [E(op, [E(0), E(nm.o())]), E(nm.o())])], "opnd", "ops", "hex")
+    add("operand $or of two integers, 0 last", [E(nm.m(), [E(nm.o()), E("$or", [E(8), E(0)])])], "opnd", "ops", "hex")
+    add("$deref field $or with the integer 0", [E(nm.m(), [E("$deref", fields={
+        "main_reg": E(nm.d()), "constant_offset": E("$or", [E(0), E(8)])})])], "deref", "ops")
     add("operand $not", [E(nm.m(), [E("$not", [E(nm.o())]), E(nm.o())])], "opnd", "not")
     add("operand $not of $or", [E(nm.m(), [E("$not", [E("$or", [E(nm.o()), E(nm.o())])]), E(nm.o())])], "opnd", "not")
     add("operand $not last", [E(nm.m(), [E(nm.o()), E("$not", [E(nm.o())])]), E(nm.m())], "opnd", "not")
@@ -214,6 +219,10 @@ def quick_family() -> List[Skeleton]:
         E(nm.m(), [E("$deref", fields={"main_reg": E(nm.d()), "constant_offset": E("&off"), "register_multiplier": E("&idx"),
                                        "constant_multiplier": E(nm.d())})]),
         E(nm.m(), [E("&off")]), E(nm.m(), [E("&idx")])], "cap", "deref")
+    for num in (7, 16, 255, 4096):
+        add(f"integer operand {num} before a capture definition and its later use", [
+            E(nm.m(), [E(num), E("&x")]), E(nm.m(), [E("&x"), E(num)]), E("&i"), E(nm.m(), [E("&genreg.64")]),
+            E(nm.m(), [E(num), E("&genreg.32")]), E("&i")], "cap", "regcap", "hex")
     add("capture bound as operand, used in deref", [
         E(nm.m(), [E("&r")]),
         E(nm.m(), [E("$deref", fields={"main_reg": E("&r"), "constant_offset": E(nm.d())})])], "cap", "deref")
